@@ -3,19 +3,24 @@ import PhyVerif.Driver.Rat
 import PhyVerif.Model.C13
 import PhyVerif.Model.C13c
 import PhyVerif.Model.C13d
+import PhyVerif.Model.C14
 namespace PhyVerif.Driver
 open Lean PhyVerif.C13
 
 def nameOfStr (s : String) : PhyVerif.C13.Name := s.splitOn "."
 
-/-- the driver's reading of rows: a time in seconds as the cell `floor(q * 2^40)` (order preserving), a token row as one
-cell (its index) -/
-def drvInterp : Interp :=
-  { encQ := fun q => (q * 1099511627776).floor, cells := fun _ i => [.num i], trail := fun _ => [] }
+/-- the driver's reading of rows: a time in seconds as the cell `floor(q * 2^40)` (order preserving), row `i` of
+`channels.rawInd` as the one cell `C14.exportRawInd channelMap channelProbes [i]` (the hypothesis `hraw` of
+`convert_output_loads`), any other token row as one cell (its index); no trailing dimensions (hypothesis `hI`) -/
+def drvInterp (v : View) : Interp :=
+  { encQ := fun q => (q * 1099511627776).floor,
+    cells := fun w i => if w = "rawInd" then [.num ((PhyVerif.C14.exportRawInd v.channelMap v.channelProbes).getD i 0)]
+                        else [.num i],
+    trail := fun _ => [] }
 
 /-- C04's loader model on the WHOLE output directory (`project`) -/
-def jReload (out : FDir) : Json :=
-  match PhyVerif.C04.load (fun a => a) (project drvInterp out) with
+def jReload (v : View) (out : FDir) : Json :=
+  match PhyVerif.C04.load (fun a => a) (project (drvInterp v) out) with
   | .error e => Json.mkObj [("err", Json.str (reprStr e))]
   | .ok (lv, _) =>
     let tm := match lv.times with | .stored t => t | .samplesOverRate t => t
@@ -24,6 +29,7 @@ def jReload (out : FDir) : Json :=
       ("stored", Json.bool (match lv.times with | .stored _ => true | _ => false)),
       ("samples", jInts (arrSummary sm).2), ("sc", jInts (arrSummary lv.spikeClusters).2),
       ("st", jInts (arrSummary lv.spikeTemplates).2), ("n_channels", jNat lv.channelMap.data.length),
+      ("channel_map", jInts (arrSummary lv.channelMap).2), ("channel_map_shape", jNats lv.channelMap.shape),
       ("has_templates", Json.bool lv.templates.isSome)]
 
 /-- a directory listing entry `{name, tag, rows, vec2d?, vals?}`: `vals` (integers) gives the rows of a 1-D
@@ -128,7 +134,7 @@ def runC13 (op : String) (j : Json) : R Json := do
       ("out", jList jOutEntry o.fs.out),
       ("times", jRats v.times), ("samples", jInts v.samples),
       ("table", table),
-      ("reload", if o.err.isNone then jReload o.fs.out else Json.null),
+      ("reload", if o.err.isNone then jReload v o.fs.out else Json.null),
       ("rows_ok", Json.bool (rowsOKb v o.fs.out)),
       ("frame_ok", Json.bool (frameOKb src o.fs.src))])
   | "frame" =>
